@@ -93,7 +93,9 @@ LayoutInfo == [
     RFC1123Z        |-> [date |-> "ymd",  time |-> "hms",  frac |-> 0, zone |-> TRUE],
     Kitchen         |-> [date |-> "none", time |-> "hm",   frac |-> 0, zone |-> FALSE],
     StampMicro      |-> [date |-> "md",   time |-> "hms",  frac |-> 6, zone |-> FALSE],
-    SpaceNano       |-> [date |-> "ymd",  time |-> "hms",  frac |-> 9, zone |-> TRUE]]
+    SpaceNano       |-> [date |-> "ymd",  time |-> "hms",  frac |-> 9, zone |-> TRUE],
+    \* prints the abbreviation of the zone the instant is expressed in (no offset to parse back)
+    RFC1123         |-> [date |-> "ymd",  time |-> "hms",  frac |-> 0, zone |-> FALSE]]
 
 LayoutIds == DOMAIN LayoutInfo
 Exported == {"TimeNoNano", "TimeNano", "DateTime", "RFC3339Nano", "RFC3339NanoOrig"}
